@@ -85,7 +85,10 @@ class FunctionCase:
         self.modname, self.fname, self.fn = modname, fname, fn
         self.key = f"{modname}.{fname}"
         self.spec = catalogue.spec(fn)
-        self.params, self.why = args.plan(fn)
+        self.params, self.why = args.plan(fn, mod)
+        if not self.why and any(p.kind == "free" for p in self.params):
+            if not args.resolve_free(fn, self.params, mod):
+                self.why = "no dimension found for the unguarded quantity parameters"
         self.law = main_equation(mod)
         self.allow = allow.get(self.key)
         self.imprecise = 0
@@ -329,9 +332,9 @@ def explore_function(fc: FunctionCase, bound: int) -> dict:
         return res
     drivable = [p for p in fc.params if p.kind != "default"]
     scalable = [p for p in drivable if p.kind in ("quantity", "number", "seq", "qvector",
-        "tupledecl")]
-    spellable = [p for p in drivable if p.kind in ("quantity", "seq", "qvector") and p.dim is not
-        None and not p.dim.dimensionless]
+        "tupledecl", "nested")]
+    spellable = [p for p in drivable if p.kind in ("quantity", "seq", "qvector", "nested") and
+        p.dim is not None and not p.dim.dimensionless]
     # default tuple: all at m0 in SI; otherwise the first accepted tuple, simplest first
     base_scales: dict = {}
     status, r, kw = fc.call({}, {})
@@ -458,7 +461,7 @@ def explore_function(fc: FunctionCase, bound: int) -> dict:
         for s in SPELLINGS:
             judge(dict(base_scales), {p.name: s for p in spellable}, f"all:{s}")
     # all magnitudes rescaled together, including extreme scales (one deviation of the whole tuple)
-    quantities = [p for p in scalable if p.kind in ("quantity", "seq", "qvector")]
+    quantities = [p for p in scalable if p.kind in ("quantity", "seq", "qvector", "nested")]
     for g in EXTREME:
         if quantities:
             judge({**base_scales, **{p.name: base_scales.get(p.name, 1.0) * g for p in quantities}},
